@@ -252,21 +252,28 @@ def _one_hot_batch_rule(
     (x,) = batched_args
     (bd,) = batch_dims
 
+    if bd is None:
+        out = OneHotPlugin._PRIM.bind(
+            x,
+            num_classes=num_classes,
+            dtype=dtype,
+            axis=axis,
+        )
+        return out, None
+
+    # ``axis`` addresses the per-example result (rank of one example + 1): keep the
+    # batch dimension in front and shift the class axis past it.
+    x = jnp.moveaxis(x, bd, 0)
+    axis_int = int(axis)
+    if axis_int < 0:
+        axis_int += x.ndim
     out = OneHotPlugin._PRIM.bind(
         x,
         num_classes=num_classes,
         dtype=dtype,
-        axis=axis,
+        axis=axis_int + 1,
     )
-    if bd is None:
-        return out, None
-
-    out_rank = x.ndim + 1
-    axis_int = int(axis)
-    if axis_int < 0:
-        axis_int += out_rank
-    out_bd = bd + 1 if axis_int <= bd else bd
-    return out, out_bd
+    return out, 0
 
 
 batching.primitive_batchers[OneHotPlugin._PRIM] = _one_hot_batch_rule
